@@ -23,6 +23,7 @@ import (
 	"crypto/x509"
 	"crypto/x509/pkix"
 	"encoding/json"
+	"encoding/pem"
 	"flag"
 	"fmt"
 	"io"
@@ -71,6 +72,9 @@ type Case struct {
 	PassAll  bool   `json:"passAll"`
 	Redirect bool   `json:"redirect"`
 	Target   URLRec `json:"target"`
+	TLS      string `json:"tls"`    // TLS settings on the repository entry: none | ca | cert | insecure
+	Order    string `json:"order"`  // single | privfirst | pubfirst (two dependencies from two repositories)
+	Public   URLRec `json:"public"` // the second, public repository
 }
 
 // Req is one request seen by the capture server.
@@ -96,6 +100,8 @@ type Obs struct {
 	Variant  string `json:"variant"`
 	PassAll  bool   `json:"passAll"`
 	Redirect bool   `json:"redirect"`
+	TLS      string `json:"tls"`
+	Order    string `json:"order"`
 	Repo     URLRec `json:"repo"`
 	RepoURL  string `json:"repoURL"`
 	ChartURL string `json:"chartURL"`
@@ -123,6 +129,7 @@ func newNames(rng *mrand.Rand) *names {
 		"sub":    "dl." + repoHost,
 		"suffix": repoHost + ".evil-" + tag + ".test",
 		"cdn":    "cdn-" + tag + ".elsewhere.test",
+		"public": "public-" + tag + ".charts-for-all.test",
 	}, id: map[string]string{}, port: map[int]int{}}
 	for k, v := range n.host {
 		n.id[v] = k
@@ -179,15 +186,16 @@ type capture struct {
 	reqs    []Req
 	n       *names
 	index   []byte
+	indexOf map[string][]byte // host identity -> its own index (else index)
 	archive []byte
 	redirTo string // where chart requests are redirected ("" = served)
 	cert    tls.Certificate
 	proxyLn net.Listener
 }
 
-func (c *capture) reset(n *names, index []byte, redirTo string) {
+func (c *capture) reset(n *names, index []byte, redirTo string, indexOf map[string][]byte) {
 	c.mu.Lock()
-	c.reqs, c.n, c.index, c.redirTo = nil, n, index, redirTo
+	c.reqs, c.n, c.index, c.redirTo, c.indexOf = nil, n, index, redirTo, indexOf
 	c.mu.Unlock()
 }
 
@@ -252,6 +260,12 @@ func (c *capture) handler(scheme, dialled, via string) http.Handler {
 			Auth: r.Header.Get("Authorization") != "", Ours: okAuth && u == n.user && pw == n.pass, URLPath: p, Via: via,
 			User: u, EmptyPw: okAuth && pw == ""})
 		index, archive, redir := c.index, c.archive, c.redirTo
+		if own, ok := c.indexOf[id]; ok {
+			index = own
+		}
+		if id == "public" {
+			redir = ""
+		}
 		c.mu.Unlock()
 		switch kind {
 		case "index":
@@ -370,6 +384,7 @@ func (c *capture) startProxy() (string, error) {
 // replay
 
 type runner struct {
+	pem     string
 	cap     *capture
 	tmp     string
 	archive []byte
@@ -385,16 +400,19 @@ func (r *runner) providers() getter.Providers {
 
 const chartFile = "chart-1.0.0.tgz"
 
-func indexBytes(entryURL string) []byte {
+func indexBytes(entryURL string) []byte { return indexBytesFor("chart", entryURL) }
+
+func indexBytesFor(name, entryURL string) []byte {
 	doc := map[string]any{"apiVersion": "v1", "generated": "2024-01-02T03:04:05Z", "entries": map[string]any{
-		"chart": []any{map[string]any{"name": "chart", "version": "1.0.0", "apiVersion": "v2", "urls": []string{entryURL},
+		name: []any{map[string]any{"name": name, "version": "1.0.0", "apiVersion": "v2", "urls": []string{entryURL},
 			"digest": "0000", "created": "2024-01-02T03:04:05Z"}}}}
 	b, _ := yaml.Marshal(doc)
 	return b
 }
 
 func (r *runner) one(cs Case, conc int, n *names) (o Obs) {
-	o = Obs{ID: cs.ID, Conc: conc, Path: cs.Path, Variant: cs.Variant, PassAll: cs.PassAll, Redirect: cs.Redirect, Repo: cs.Repo}
+	o = Obs{ID: cs.ID, Conc: conc, Path: cs.Path, Variant: cs.Variant, PassAll: cs.PassAll, Redirect: cs.Redirect, Repo: cs.Repo,
+		TLS: cs.TLS, Order: cs.Order}
 	repoURL := n.base(cs.Repo)
 	chartURL := n.base(cs.Chart) + "/" + chartFile
 	entry := chartURL
@@ -407,7 +425,13 @@ func (r *runner) one(cs Case, conc int, n *names) (o Obs) {
 		redir = n.base(cs.Target) + "/" + chartFile
 	}
 	idx := indexBytes(entry)
-	r.cap.reset(n, idx, redir)
+	var indexOf map[string][]byte
+	pubURL := ""
+	if cs.Path == "manager2" {
+		pubURL = n.base(cs.Public)
+		indexOf = map[string][]byte{"public": indexBytesFor("pubchart", "pubchart-1.0.0.tgz")}
+	}
+	r.cap.reset(n, idx, redir, indexOf)
 
 	dir := filepath.Join(r.tmp, "case")
 	os.RemoveAll(dir)
@@ -419,8 +443,20 @@ func (r *runner) one(cs Case, conc int, n *names) (o Obs) {
 	writeRepoCfg := func(with bool) {
 		rf := repo.NewFile()
 		if with {
-			rf.Add(&repo.Entry{Name: "r", URL: repoURL, Username: n.user, Password: n.pass, PassCredentialsAll: cs.PassAll})
+			ent := &repo.Entry{Name: "r", URL: repoURL, Username: n.user, Password: n.pass, PassCredentialsAll: cs.PassAll}
+			switch cs.TLS { // the transport is injected, the files are never opened; they only have to be named
+			case "ca":
+				ent.CAFile = r.pem
+			case "cert":
+				ent.CertFile, ent.KeyFile = r.pem, r.pem
+			case "insecure":
+				ent.InsecureSkipTLSverify = true
+			}
+			rf.Add(ent)
 			os.WriteFile(filepath.Join(cache, "r-index.yaml"), idx, 0o644)
+			if pubURL != "" {
+				rf.Add(&repo.Entry{Name: "pub", URL: pubURL})
+			}
 		}
 		rf.WriteFile(repoCfg, 0o644)
 	}
@@ -478,13 +514,20 @@ func (r *runner) one(cs Case, conc int, n *names) (o Obs) {
 		p.VerifyLater = true
 		p.DestDir = dest
 		_, err = p.Run("chart")
-	case "manager":
+	case "manager", "manager2":
 		writeRepoCfg(true)
 		os.Remove(filepath.Join(cache, "r-index.yaml")) // Update fetches it
 		cdir := filepath.Join(dir, "parent")
 		os.MkdirAll(cdir, 0o755)
-		md := &chart.Metadata{APIVersion: "v2", Name: "parent", Version: "0.1.0",
-			Dependencies: []*chart.Dependency{{Name: "chart", Version: "1.0.0", Repository: repoURL}}}
+		priv := &chart.Dependency{Name: "chart", Version: "1.0.0", Repository: repoURL}
+		pub := &chart.Dependency{Name: "pubchart", Version: "1.0.0", Repository: pubURL}
+		md := &chart.Metadata{APIVersion: "v2", Name: "parent", Version: "0.1.0", Dependencies: []*chart.Dependency{priv}}
+		switch cs.Order {
+		case "privfirst":
+			md.Dependencies = []*chart.Dependency{priv, pub}
+		case "pubfirst":
+			md.Dependencies = []*chart.Dependency{pub, priv}
+		}
 		b, _ := yaml.Marshal(md)
 		os.WriteFile(filepath.Join(cdir, "Chart.yaml"), b, 0o644)
 		m := &downloader.Manager{Out: io.Discard, ChartPath: cdir, Getters: r.providers(), RepositoryConfig: repoCfg,
@@ -537,7 +580,9 @@ func cmdRun(args []string) error {
 		return err
 	}
 	cp.archive, _ = os.ReadFile(ap)
-	r := &runner{cap: cp, tmp: *tmp}
+	pemPath := filepath.Join(*tmp, "ca.pem")
+	os.WriteFile(pemPath, pem.EncodeToMemory(&pem.Block{Type: "CERTIFICATE", Bytes: cp.cert.Certificate[0]}), 0o644)
+	r := &runner{cap: cp, tmp: *tmp, pem: pemPath}
 
 	f, err := os.Open(*casesF)
 	if err != nil {
